@@ -1,0 +1,26 @@
+//go:build verif
+
+package parse
+
+import "sync/atomic"
+
+// VerifTokenHook receives every token processed by splitStringsSlice ("slice") and splitMap
+// ("map"): the token kind as returned by text/scanner, its text and the scanner's error count.
+type VerifTokenHook func(where string, tok rune, text string, errCount int)
+
+var verifTokenHook atomic.Pointer[VerifTokenHook]
+
+// SetVerifTokenHook installs (or, with nil, removes) the hook.
+func SetVerifTokenHook(h VerifTokenHook) {
+	if h == nil {
+		verifTokenHook.Store(nil)
+		return
+	}
+	verifTokenHook.Store(&h)
+}
+
+func verifToken(where string, tok rune, text string, errCount int) {
+	if h := verifTokenHook.Load(); h != nil {
+		(*h)(where, tok, text, errCount)
+	}
+}
